@@ -39,6 +39,9 @@ def mv(a, v):
 
 
 def run(index: RepoIndex, rep) -> None:
+    rep.rule('C18.R8', 'geometry operators and grid rotations are pure functions of their '
+             'operands (no in-place update, no cache)', floor=15)
+    purity(index, rep)
     g = Geometry(index)
     O = g.orients
     gi = GeoInterp(g)
@@ -52,8 +55,12 @@ def run(index: RepoIndex, rep) -> None:
     rep.rule('C18.R5', 'Transform composition (p1 + o1·p2, o1·o2), action p + o·x, inverse, '
              'associativity and action compatibility for all heading combinations', floor=100)
     rep.rule('C18.R6', 'grid rotations: bijective index maps, each undone by the map of the '
-             'inverse orientation; Grid.__mul__ applies the table', floor=9)
-    rep.rule('C18.R7', 'get_next_position agrees with the pose algebra', floor=17)
+             'inverse orientation, composition follows the table; Grid.__mul__ applies the table',
+             floor=25)
+    rep.rule('C18.R7', 'get_next_position agrees with the pose algebra for every heading and '
+             'action', floor=32)
+    rep.rule('C18.R8', 'geometry operators and grid rotations are pure functions of their '
+             'operands (no in-place update, no cache)', floor=15)
 
     f = 'gym_gridverse/geometry.py'
     fn_mul = g.omul
@@ -278,6 +285,22 @@ def run(index: RepoIndex, rep) -> None:
                   'C18.R6', gf, '_grid_rotation_functions', gl, f'{o} then {g.neg[o]}',
                   f'rotating a grid by {o} and then by {g.neg[o]} gives cell [{rr}][{cc}], '
                   f'not the original', f'undone {o}')
+    # composing two rotations is the rotation of the composed orientation
+    for a in O:
+        for b in O:
+            if a not in g.grid_rot or b not in g.grid_rot:
+                continue
+            ma, mb = g.grid_rot[a], g.grid_rot[b]
+            dims = {'H': ma.nr, 'W': ma.nc}
+            r2, c2 = mb.r.subst(dims), mb.c.subst(dims)
+            rr = ma.r.subst({'i': r2, 'j': c2})
+            cc = ma.c.subst({'i': r2, 'j': c2})
+            mc = g.grid_rot[g.rot[(a, b)]]
+            rep.check(rr == mc.r and cc == mc.c, 'C18.R6', gf, '_grid_rotation_functions', gl,
+                      f'{a} then {b} vs {g.rot[(a, b)]}',
+                      f'rotating a grid by {a} and then by {b} shows cell [{rr}][{cc}], the '
+                      f'rotation by {g.rot[(a, b)]} shows [{mc.r}][{mc.c}]',
+                      f'compose {a},{b}')
     gm = index.func(GRID, 'Grid.__mul__')
     w = walk_function(gm.node)
     rets = [src(w.expand(e.value)) for e in w.events
@@ -288,33 +311,29 @@ def run(index: RepoIndex, rep) -> None:
               'Grid.__mul__ does not return Grid(<rotation function of the orientation>'
               '(self.objects))', 'Grid.__mul__ applies table')
 
-    # ---- R7 get_next_position
-    table = index.table(UTILS, '_move_action_to_orientation')
-    mv_tab = {}
-    for k, v in zip(table.keys, table.values):
-        ka, vo = index.enum_member(k), index.enum_member(v)
-        if not ka or not vo:
-            raise AnalysisError('_move_action_to_orientation has a non-literal entry')
-        mv_tab[ka[1]] = vo[1]
-    for o in O:
-        for act, mo in mv_tab.items():
-            rep.check(g.delta[g.rot[(o, mo)]] == mv(g.mat(o), g.delta[mo]),
-                      'C18.R7', UTILS, 'get_next_position', table.lineno, f'{o} * {mo}',
-                      f'moving {act} with heading {o}: delta of {g.rot[(o, mo)]} is '
-                      f'{g.delta[g.rot[(o, mo)]]} but M({o})·delta({mo}) = '
-                      f'{mv(g.mat(o), g.delta[mo])}', f'next {o},{act}')
-    gn = index.func(UTILS, 'get_next_position')
-    ps = [a.arg for a in gn.node.args.args]
-    w = walk_function(gn.node)
-    ren = dict(zip(ps, ['POS', 'ORI', 'ACT']))
-    rets = []
-    for e in w.events:
-        if e.kind == 'return' and e.value is not None:
-            rets.append(src(w.expand(e.value, ren)))
-    want = 'POS + Position.from_orientation(ORI * _move_action_to_orientation[ACT])'
-    alt = 'Position.from_orientation(ORI * _move_action_to_orientation[ACT]) + POS'
-    rep.check(any(r in (want, alt) for r in rets) and all(r in (want, alt, 'POS') for r in rets),
-              'C18.R7', UTILS, 'get_next_position', gn.node.lineno, '; '.join(rets),
-              f'get_next_position returns {rets}; expected position + '
-              f'from_orientation(orientation * table[action]) (and position for non-moves)',
-              'next position formula')
+    # ---- R7 get_next_position (denotation for all headings x actions)
+    from .c08 import _next_position
+    _next_position(index, rep, g)
+
+
+def purity(index: RepoIndex, rep) -> None:
+    from ..effects import Effects
+    eff = Effects(index)
+    for rel, name in ((GEOM, 'Orientation.__mul__'), (GEOM, 'Orientation.__neg__'),
+                      (GEOM, 'Position.__add__'), (GEOM, 'Position.__sub__'),
+                      (GEOM, 'Position.__neg__'), (GEOM, 'Position.from_orientation'),
+                      (GEOM, 'Transform.__mul__'), (GEOM, 'Transform.__neg__'),
+                      (GEOM, 'Area.contains'), (GRID, 'Grid.__mul__'),
+                      (GRID, '_rotate_matrix_forward'), (GRID, '_rotate_matrix_right'),
+                      (GRID, '_rotate_matrix_left'), (GRID, '_rotate_matrix_backward'),
+                      (UTILS, 'get_next_position')):
+        fn = index.func(rel, name)
+        sm = eff.summary(fn)
+        sites = [f'line {l} `{t}`' for p_ in sorted(sm.mut_params)
+                 for l, t in sm.mut_sites.get(p_, [])[:2]]
+        rep.check(not sm.mut_params and not sm.global_writes, 'C18.R8', rel, name,
+                  fn.node.lineno, '; '.join(sites) or name,
+                  f'{name} modifies its operand(s) {sorted(sm.mut_params)} / module state '
+                  f'{sorted(sm.global_writes)} ({"; ".join(sites)}): poses are mutated in place by '
+                  f'the dynamics and grids are reused, so a cached or in-place result breaks '
+                  f'the algebra on the second use', f'{name} pure')
